@@ -21,9 +21,13 @@ INFO = {
 }
 
 
-def close(a, b, scale):
+def close(a, b, scale, extra=0.0):
+    """extra: additional absolute tolerance per row (conditioning of the prefix-sum variance), scalar or one entry per cut"""
     a, b = np.asarray(a, dtype=float), np.asarray(b, dtype=float)
-    return a.shape == b.shape and bool(np.all(np.abs(a - b) <= 1e-8 * (np.abs(a) + np.abs(b) + scale)))
+    ex = np.asarray(extra, dtype=float)
+    if ex.ndim == 1 and a.ndim == 2:
+        ex = ex.reshape(-1, 1)
+    return a.shape == b.shape and bool(np.all(np.abs(a - b) <= 1e-8 * (np.abs(a) + np.abs(b) + scale) + ex))
 
 
 def canon(y):
@@ -50,6 +54,8 @@ def run(ctx):
         p = rng.choice([1, 2, 3, 4])
         n = rng.randint(8, 30)
         X = np.asarray([[rng.gauss(0, 2) + (3 if (t > n // 2 and j == 0) else 0) for j in range(p)] for t in range(n)])
+        if it % 5 == 4:
+            X = 1000.0 + 0.02 * X          # a high level with a small spread (pressure-like readings): shift / scale invariance must survive it
         perm = list(range(p))
         rng.shuffle(perm)
         shift = np.asarray([rng.choice([-7.5, 2.0, 11.25]) for _ in range(p)])
@@ -87,20 +93,30 @@ def run(ctx):
                     cuts.append([s, a_, b_, e])
             if not cuts:
                 continue
+            extra = 0.0
             if "Gaussian" in name:
-                def well_conditioned(cut):
+                # the prefix-sum variance S2/n - (S1/n)^2 loses about eps * (mean^2 + var) / var relative accuracy; the log-variance terms of a cut of
+                # total length L then move by about L * that.  The tolerance is conditioned accordingly (factor 50 of slack); cuts where even that
+                # exceeds 1e-3 (variance below ~1e-11 of the squared level, or essentially constant parts) are not compared.
+                def condition(cut):
                     parts = list(zip(cut[:-1], cut[1:])) + [(cut[0], cut[-1])]
+                    worst = 0.0
                     for Xv in (X, Xs, Xa):
                         segs = [Xv[a_:b_] for a_, b_ in parts]
                         if k == 4:
                             segs.append(np.concatenate((Xv[cut[0]:cut[1]], Xv[cut[2]:cut[3]])))
                         for seg in segs:
-                            if len(seg) and np.any(seg.var(axis=0) < 1e-6 * seg.mean(axis=0) ** 2 + 1e-13):
-                                return False
-                    return True
-                kept = [c_ for c_ in cuts if well_conditioned(c_)]
+                            if len(seg):
+                                var_, m2 = seg.var(axis=0), seg.mean(axis=0) ** 2
+                                if np.any(var_ < 1e-250):
+                                    return np.inf
+                                worst = max(worst, float(np.max((m2 + var_) / var_)))
+                    return 50 * 2.3e-16 * worst * (cut[-1] - cut[0])
+                tol_rows = [condition(c_) for c_ in cuts]
+                kept = [(c_, t_) for c_, t_ in zip(cuts, tol_rows) if t_ < 1e-3]
                 ctx.count("ill_conditioned_cuts_skipped", len(cuts) - len(kept))
-                cuts = kept
+                cuts = [c_ for c_, _ in kept]
+                extra = np.asarray([t_ for _, t_ in kept])
                 if not cuts:
                     continue
             cuts = np.asarray(cuts)
@@ -120,13 +136,13 @@ def run(ctx):
             if percol:
                 if not np.array_equal(vp, base[:, perm]):
                     v(f"{name}: permuting the columns of X does not permute the per-column outputs exactly", inp, {"what": "permutation", "scorer": name})
-            elif not close(vp, base, scale):
+            elif not close(vp, base, scale, extra):
                 v(f"{name}: value changes under a column permutation: {base.tolist()} vs {vp.tolist()}", inp, {"what": "permutation", "scorer": name})
-            if shift_inv and not close(vs, base, scale):
+            if shift_inv and not close(vs, base, scale, extra):
                 v(f"{name}: adding a constant to each column changes the value: {base.tolist()} vs {vs.tolist()}", inp, {"what": "shift", "scorer": name})
-            if scale_inv and not close(va, base, scale):
+            if scale_inv and not close(va, base, scale, extra):
                 v(f"{name}: multiplying X by {a} changes the value: {base.tolist()} vs {va.tolist()}", inp, {"what": "scale", "scorer": name})
-            if not close(vr, base, scale):
+            if not close(vr, base, scale, extra):
                 v(f"{name}: time reversal does not map the values to those of the mirrored cuts: {base.tolist()} vs {vr.tolist()}", inp,
                   {"what": "reversal", "scorer": name})
 
@@ -159,6 +175,7 @@ def run(ctx):
             ("CircularBinarySegmentation(L2Cost)", lambda: CircularBinarySegmentation(min_segment_length=3, max_interval_length=30), True, False),
             ("CAPA", lambda: CAPA(), False, False),
             ("MVCAPA", lambda: MVCAPA(), False, False),
+            ("MVCAPA(intermediate)", lambda: MVCAPA(collective_penalty="intermediate", point_penalty="intermediate"), False, False),
         ]
         for name, mk, shift_inv, scale_inv in dets:
             def out(Xv):
@@ -206,7 +223,7 @@ def run(ctx):
                       {"what": "exception", "detector": name})
                     continue
                 c1 = canon(y1)
-                if name == "MVCAPA" and kind == "permutation":
+                if name.startswith("MVCAPA") and kind == "permutation":
                     # column j of the permuted data is column perm[j] of the original
                     c1 = [(l, r, sorted(perm[c] for c in cols)) for l, r, cols in c1]
                 scale_ref = float(np.max(np.abs(s0))) + 1 if s0 is not None else 1.0
